@@ -765,26 +765,30 @@ func keep(texts []string, keys ...string) []string {
 }
 
 // structuredGates: every top-level `if cond { return }` of a Draw method as a Gate value.  The size test is only
-// recognised when `w, h := win.Size()` is a top-level statement before it and neither w nor h is assigned in
-// between; anything else is `.unknown "<cond>"`.  Never fails.
+// recognised when `<w>, <h> := win.Size()` (any two local names) is a top-level statement before it and neither
+// local nor win is assigned in between; anything else is `.unknown "<cond>"`.  Never fails.
 func structuredGates(c *ex.Ctx, fd *ast.FuncDecl, recv string) []string {
 	if fd == nil || fd.Body == nil {
 		return []string{".unknown \"function not found\""}
 	}
 	var out []string
-	haveSize := false
+	// names of the locals holding `win.Size()` ("" = not (or no longer) known)
+	wName, hName := "", ""
 	for _, st := range fd.Body.List {
-		t := src(c, st)
-		if t == "w, h := win.Size()" {
-			haveSize = true
-			continue
-		}
 		if as, ok := st.(*ast.AssignStmt); ok {
 			for _, l := range as.Lhs {
-				if n := src(c, l); n == "w" || n == "h" || n == "win" {
-					haveSize = false
+				if n := src(c, l); n == wName || n == hName || n == "win" {
+					wName, hName = "", ""
 				}
 			}
+			if len(as.Lhs) == 2 && len(as.Rhs) == 1 && src(c, as.Rhs[0]) == "win.Size()" {
+				a, ok1 := as.Lhs[0].(*ast.Ident)
+				b, ok2 := as.Lhs[1].(*ast.Ident)
+				if ok1 && ok2 && a.Name != "_" && b.Name != "_" {
+					wName, hName = a.Name, b.Name
+				}
+			}
+			continue
 		}
 		is, ok := st.(*ast.IfStmt)
 		if !ok || is.Init != nil || is.Else != nil || len(is.Body.List) != 1 {
@@ -801,9 +805,9 @@ func structuredGates(c *ex.Ctx, fd *ast.FuncDecl, recv string) []string {
 			out = append(out, ".encoding")
 		default:
 			g := ".unknown " + ex.LeanStr(cond)
-			if be, ok := is.Cond.(*ast.BinaryExpr); ok && haveSize && (be.Op == token.LOR || be.Op == token.LAND) {
-				cw, ok1 := cmpOf(c, be.X, recv+".w", "w")
-				ch, ok2 := cmpOf(c, be.Y, recv+".h", "h")
+			if be, ok := is.Cond.(*ast.BinaryExpr); ok && wName != "" && (be.Op == token.LOR || be.Op == token.LAND) {
+				cw, ok1 := cmpOf(c, be.X, recv+".w", wName)
+				ch, ok2 := cmpOf(c, be.Y, recv+".h", hName)
 				if ok1 && ok2 {
 					conn := ".or"
 					if be.Op == token.LAND {
